@@ -56,4 +56,10 @@ def newkeysKeepsAuthHandler : Bool := true
 /-- Packetizer._check_keepalive returns before the callback while a rekey request is pending -/
 def keepaliveSilentWhileRekeyPending : Bool := true
 
+/-- Channel.recv / recv_stderr send the window credit whenever one was computed (`if ack > 0:` only) -/
+def recvSendsEveryComputedAck : Bool := true
+
+/-- Transport._send_user_message: the give-up test reads the clock (`time.time() > start + timeout`) -/
+def sendTimeoutReadsClock : Bool := true
+
 end PV.Generated.C11
